@@ -2239,4 +2239,239 @@ theorem symInitArgs_json (s : Sig) (hwf : s.wf = true) (F : Functor) (hsig : F.s
   rw [List.map_congr_left (fun p hp => reportOne_pval F.bound p _ (hget p (List.mem_append_left _ hp))),
       List.map_congr_left (fun p hp => reportOne_pval F.bound p _ (hget p (List.mem_append_right _ hp)))]
 
+
+
+/-- "The wrapper `o` holds the supplied arguments `n`" (all required parameters present). -/
+structure ObjBuilt (s : Sig) (o : SymObject) (n : Named) : Prop where
+  sig : o.sig = s
+  named : o.fields.filter (fun p => s.names.contains p.1) = n.named
+  extra : o.fields.filter (fun p => !s.names.contains p.1) = n.extra
+  extraNd : (keys n.extra).Nodup
+  extraVk : ∀ p ∈ n.extra, s.varkw.isSome = true
+  va : o.va.getD [] = n.va
+  vaSome : n.va ≠ [] → s.varargs.isSome = true
+  full : ∀ p ∈ s.params, p.dflt.isNone = true → khas o.fields p.name = true
+
+/-- What the user's `__init__` sees when a well-formed wrapper (re-)initialises it: the language's
+binding of the arguments it holds. -/
+theorem initOutcome_eq (s : Sig) (hwf : s.wf = true) (o : SymObject) (n : Named) (hB : ObjBuilt s o n) :
+    initOutcome o = toPyE (complete s n) := by
+  obtain ⟨hsig, hsn, hse, hend, hevk, hva, hvas, hfull⟩ := hB
+  have hpn := Sig.wf_pos_nodup hwf
+  have hkeq : ∀ k, s.names.contains k = true → kget o.fields k = kget n.named k := by
+    intro k hk
+    rw [← hsn, kget_filter (fun k => s.names.contains k), hk]; rfl
+  have hfp : fill o.fields s.pos = fill n.named s.pos :=
+    fill_congr (fun p hp => hkeq _ (Sig.pos_sub_names s (List.mem_map.2 ⟨p, hp, rfl⟩)))
+  have hfk : fill o.fields s.kwonly = fill n.named s.kwonly :=
+    fill_congr (fun p hp => hkeq _ (List.contains_iff_mem.2 (List.mem_append_right _ (List.mem_map.2 ⟨p, hp, rfl⟩))))
+  have hnomiss : ∀ ps, (∀ p ∈ ps, p ∈ s.params) → ∃ r, fill o.fields ps = .ok r := by
+    intro ps hsub
+    cases hfl : fill o.fields ps with
+    | ok r => exact ⟨r, rfl⟩
+    | error e =>
+      exfalso
+      obtain ⟨p, hp, h1, h2⟩ := (fill_missing_iff _ ps).1 ⟨e, hfl⟩
+      have := hfull p (hsub p hp) h1
+      rw [h2] at this; cases this
+  obtain ⟨rp, hrp⟩ := hnomiss s.pos (fun p hp => List.mem_append_left _ hp)
+  obtain ⟨rk, hrk⟩ := hnomiss s.kwonly (fun p hp => List.mem_append_right _ hp)
+  have hkrp : keys rp = s.posNames := fill_keys hrp
+  have hkrk : keys rk = s.kwNames := fill_keys hrk
+  unfold initOutcome callInitCall
+  simp only [hsig, fill_eq_withDefaults hrp, fill_eq_withDefaults hrk, hse, hva]
+  rw [pyCall_eq]
+  unfold pyBind
+  have hlen : (rp.map (·.2)).length = s.pos.length := by
+    rw [List.length_map, ← List.length_map (as := rp) (f := (·.1))]
+    show (keys rp).length = _
+    rw [hkrp]; simp [Sig.posNames]
+  have hexn : ∀ p ∈ n.extra, s.names.contains p.1 = false := by
+    intro p hp
+    rw [← hse, List.mem_filter] at hp
+    simpa using hp.2
+  have hrkn : ∀ p ∈ rk, s.names.contains p.1 = true := by
+    intro p hp
+    apply List.contains_iff_mem.2
+    apply List.mem_append_right
+    rw [← hkrk]; exact mem_keys_of_mem hp
+  rw [nameArgs_canon s (rp.map (·.2)) n.va (rk ++ n.extra) (by omega) (fun h => ⟨hlen, hvas h⟩)]
+  · have e1 : (rk ++ n.extra).filter (fun p => s.names.contains p.1) = rk := by
+      rw [List.filter_append, List.filter_eq_self.2 hrkn, List.filter_eq_nil_iff.2 (fun p hp => by rw [hexn p hp]; simp)]
+      simp
+    have e2 : (rk ++ n.extra).filter (fun p => !s.names.contains p.1) = n.extra := by
+      rw [List.filter_append, List.filter_eq_nil_iff.2 (fun p hp => by rw [hrkn p hp]; simp),
+        List.filter_eq_self.2 (fun p hp => by rw [hexn p hp]; rfl)]
+      simp
+    have e3 : s.posNames.zip (rp.map (·.2)) = rp := by rw [← hkrp]; exact zip_keys_vals rp
+    rw [e1, e2, e3]
+    rw [hfp] at hrp
+    rw [hfk] at hrk
+    have hpn' : (s.pos.map (·.name)).Nodup := hpn
+    have hkn' : (s.kwonly.map (·.name)).Nodup := Sig.wf_kw_nodup hwf
+    have f1 : fill (rp ++ rk) s.pos = .ok rp := fill_append_self hpn' hrp
+    have f2 : fill (rp ++ rk) s.kwonly = .ok rk := by
+      have : fill (rp ++ rk) s.kwonly = fill (rk ++ []) s.kwonly := by
+        apply fill_congr
+        intro q hq
+        have hqk : q.name ∈ s.kwNames := List.mem_map.2 ⟨q, hq, rfl⟩
+        have hqp : q.name ∉ keys rp := by rw [hkrp]; exact Sig.wf_kw_not_pos hwf hqk
+        rw [kget_append, (kget_eq_none_iff _ _).2 hqp, List.append_nil]
+      rw [this]
+      exact fill_append_self hkn' hrk
+    unfold complete
+    simp only [f1, f2, hrp, hrk]
+  · rw [keys_append, List.nodup_append]
+    refine ⟨by rw [hkrk]; exact Sig.wf_kw_nodup hwf, hend, ?_⟩
+    intro a ha b hb e
+    subst e
+    obtain ⟨q, hq, hqe⟩ := exists_of_mem_keys hb
+    have h1 := hexn q hq
+    have h2 : s.names.contains a = true := List.contains_iff_mem.2 (List.mem_append_right _ (hkrk ▸ ha))
+    rw [← hqe, h1] at h2; cases h2
+  · intro p hp hnn hmem
+    rcases List.mem_append.1 hp with hp | hp
+    · have : p.1 ∈ s.kwNames := by rw [← hkrk]; exact mem_keys_of_mem hp
+      exact Sig.wf_kw_not_pos hwf this (List.mem_of_mem_take hmem)
+    · rw [hexn p hp] at hnn; cases hnn
+  · intro p hp hnn
+    rcases List.mem_append.1 hp with hp | hp
+    · rw [hrkn p hp] at hnn; cases hnn
+    · exact hevk p hp
+
+/-- A rebind of declared parameters keeps the wrapper well-formed; it now holds the merged
+arguments (later values replace earlier ones). -/
+theorem objBuilt_rebind (s : Sig) (o : SymObject) (n : Named) (hB : ObjBuilt s o n) (upd : KW)
+    (hupd : ∀ p ∈ upd, s.names.contains p.1 = true) :
+    ObjBuilt s (objectRebind o upd) ⟨mergeKw n.named upd, n.va, n.extra⟩ := by
+  obtain ⟨hsig, hsn, hse, hend, hevk, hva, hvas, hfull⟩ := hB
+  refine ⟨hsig, ?_, ?_, hend, hevk, hva, hvas, ?_⟩
+  · simp only [objectRebind]
+    rw [filter_mergeKw (fun k => s.names.contains k), hsn, List.filter_eq_self.2 hupd]
+  · simp only [objectRebind]
+    rw [filter_mergeKw (fun k => !s.names.contains k), hse,
+      List.filter_eq_nil_iff.2 (fun p hp => by rw [hupd p hp]; simp), mergeKw_nil]
+  · intro p hp hd
+    have := (khas_iff _ _).1 (hfull p hp hd)
+    simp only [objectRebind]
+    exact (khas_iff _ _).2 ((mem_keys_mergeKw _ _ _).2 (Or.inl this))
+
+
+/-- `Object.__init__` on arguments that the language can distribute: every check but the
+missing-argument one passes. -/
+theorem objectInit_of_named (s : Sig) (hwf : s.wf = true) (c : Call) (hc : c.wf = true)
+    (hav : ∀ p ∈ c.kwargs, s.varargs ≠ some p.1) (n : Named) (hn : nameArgs s c = .ok n) :
+    objectInit s c =
+      if s.params.any (fun p => p.dflt.isNone && !khas (s.posNames.zip c.args ++ c.kwargs) p.name) = true
+      then .error .typeError
+      else .ok ⟨s, s.posNames.zip c.args ++ c.kwargs,
+                if (!c.args.isEmpty && s.varargs.isSome) = true then some (c.args.drop s.pos.length) else none⟩ := by
+  obtain ⟨hnm, hnva, hnex, hfresh, hvk, hvas⟩ := nameArgs_ok_inv hn
+  obtain ⟨hsn, hse⟩ := split_fields hn
+  have hcnd : (keys c.kwargs).Nodup := by simpa [Call.wf] using hc
+  have hpn := Sig.wf_pos_nodup hwf
+  have hnd := nameArgs_nodup hwf hc hn
+  -- (a)
+  have ha : (s.varkw.isNone && c.kwargs.any (fun p => !(s.names.contains p.1) && s.varargs != some p.1)) = false := by
+    cases hv : s.varkw with
+    | some w => rfl
+    | none =>
+      simp only [Option.isNone_none, Bool.true_and, List.any_eq_false]
+      intro p hp
+      cases hnn : s.names.contains p.1
+      · have := hvk p hp hnn; rw [hv] at this; cases this
+      · simp
+  -- (b)
+  have hb : (!c.args.isEmpty && s.pos.isEmpty && s.kwonly.isEmpty && s.varargs.isNone && s.varkw.isNone) = false := by
+    cases hargs : c.args with
+    | nil => rfl
+    | cons a r =>
+      cases hp : s.pos with
+      | cons p ps => simp
+      | nil =>
+        have : n.va ≠ [] := by rw [hnva, hp, hargs]; simp
+        have := hvas this
+        cases hv : s.varargs with
+        | none => rw [hv] at this; cases this
+        | some vn => simp
+  -- (c)
+  have hcc : (s.varargs.isNone && decide (c.args.length > s.pos.length)) = false := by
+    cases hv : s.varargs with
+    | some vn => rfl
+    | none =>
+      have : n.va = [] := by
+        cases hva : n.va with
+        | nil => rfl
+        | cons a r => have := hvas (by rw [hva]; simp); rw [hv] at this; cases this
+      rw [hnva, List.drop_eq_nil_iff] at this
+      simp; omega
+  -- (d)
+  have hd : ∀ vs, objKw vs s c.kwargs (s.posNames.zip c.args) = .ok (s.posNames.zip c.args ++ c.kwargs) := by
+    intro vs
+    apply objKw_of_fresh vs hcnd _ hav
+    intro p hp
+    cases hnn : s.names.contains p.1
+    · apply kget_zip_none
+      intro hmem; rw [Sig.pos_sub_names s hmem] at hnn; cases hnn
+    · exact hfresh p hp hnn
+  -- (f)
+  have hf : (s.posNames.zip c.args ++ c.kwargs).any (fun p => s.varargs == some p.1) = false := by
+    rw [List.any_eq_false]
+    intro p hp
+    rcases List.mem_append.1 hp with hp | hp
+    · intro h
+      have hv : s.varargs = some p.1 := by simpa using h
+      exact Sig.wf_varargs_not_name hwf hv (List.mem_append_left _ (List.of_mem_zip hp).1)
+    · intro h
+      exact hav p hp (by simpa using h)
+  have hkeq : ∀ k, s.names.contains k = true → kget (s.posNames.zip c.args ++ c.kwargs) k = kget n.named k := by
+    intro k hk
+    rw [← hsn, kget_filter (fun k => s.names.contains k), hk]; rfl
+  have hfp : fill (s.posNames.zip c.args ++ c.kwargs) s.pos = fill n.named s.pos :=
+    fill_congr (fun p hp => hkeq _ (Sig.pos_sub_names s (List.mem_map.2 ⟨p, hp, rfl⟩)))
+  have hfk : fill (s.posNames.zip c.args ++ c.kwargs) s.kwonly = fill n.named s.kwonly :=
+    fill_congr (fun p hp => hkeq _ (List.contains_iff_mem.2 (List.mem_append_right _ (List.mem_map.2 ⟨p, hp, rfl⟩))))
+  unfold objectInit
+  simp only [ha, hb, hcc, hd, hf, Bool.false_eq_true, if_false]
+
+theorem objBuilt_of_init (s : Sig) (hwf : s.wf = true) (c : Call) (hc : c.wf = true)
+    (hav : ∀ p ∈ c.kwargs, s.varargs ≠ some p.1) (n : Named) (hn : nameArgs s c = .ok n)
+    (o : SymObject) (ho : objectInit s c = .ok o) : ObjBuilt s o n := by
+  rw [objectInit_of_named s hwf c hc hav n hn] at ho
+  split at ho
+  · cases ho
+  · rename_i hm
+    cases ho
+    obtain ⟨_, hnva, _, _, hvk, hvas⟩ := nameArgs_ok_inv hn
+    obtain ⟨hsn, hse⟩ := split_fields hn
+    have hnd := nameArgs_nodup hwf hc hn
+    refine ⟨rfl, hsn, hse, hnd.2, ?_, ?_, hvas, ?_⟩
+    · intro p hp
+      rw [← hse, List.mem_filter] at hp
+      rcases List.mem_append.1 hp.1 with h | h
+      · have := Sig.pos_sub_names s (List.of_mem_zip h).1
+        rw [this] at hp; exact absurd hp.2 (by simp)
+      · exact hvk p h (by simpa using hp.2)
+    · simp only
+      rw [hnva]
+      cases hargs : c.args with
+      | nil => simp
+      | cons a r =>
+        cases hv : s.varargs with
+        | some vn => simp
+        | none =>
+          have : n.va = [] := by
+            cases hva : n.va with
+            | nil => rfl
+            | cons a r => have := hvas (by rw [hva]; simp); rw [hv] at this; cases this
+          rw [hnva, hargs] at this
+          simp [this]
+    · intro p hp hd
+      cases hk : khas (s.posNames.zip c.args ++ c.kwargs) p.name with
+      | true => rfl
+      | false =>
+        exfalso; apply hm
+        rw [List.any_eq_true]
+        exact ⟨p, hp, by simp [hd, hk]⟩
+
 end Pg.C18
